@@ -277,3 +277,48 @@ func Show(v MalType) string {
 	}
 	return "?"
 }
+
+// RuneStr returns a valid-UTF-8 string of 0..max characters: each character is
+// either a symbolic byte over the ASCII alphabet ascii (no fork) or one of the
+// multi-byte characters in multi (one fork per alternative).
+func RuneStr(tag string, max int, ascii string, multi []string) string {
+	n := vrt.Concrete(vrt.Choice(tag+"/len", max+1))
+	s := ""
+	for i := 0; i < n; i++ {
+		t := tag + "/" + itoa(i)
+		k := vrt.Concrete(vrt.Choice(t+"/c", 1+len(multi)))
+		if k == 0 {
+			s += string([]byte{vrt.ByteIn(t, ascii)})
+		} else {
+			s += multi[k-1]
+		}
+	}
+	return s
+}
+
+// HasFloat reports whether a value read from text contains a float.
+func HasFloat(v MalType) bool {
+	switch x := v.(type) {
+	case float32, float64:
+		return true
+	case List:
+		for _, e := range x.Val {
+			if HasFloat(e) {
+				return true
+			}
+		}
+	case Vector:
+		for _, e := range x.Val {
+			if HasFloat(e) {
+				return true
+			}
+		}
+	case HashMap:
+		for _, e := range x.Val {
+			if HasFloat(e) {
+				return true
+			}
+		}
+	}
+	return false
+}
